@@ -56,6 +56,14 @@ def _build(kind, cfg):
             c["delay"] = c["delay"] * cfg["dt0"] / dt
             c["delays"] = "zero"
         return B.make_connection(c, dt, bsz)
+    if kind == "layer":
+        from . import c17 as L
+
+        lc = dict(cfg["layer"])
+        lc["batch"], lc["dt"] = bsz, dt
+        layer, comps = L.build(lc, True)
+        layer._verif_comps, layer._verif_case = comps, lc
+        return layer
     if kind == "record":
         from inferno.core.infrastructure import Module, RecordTensor
 
@@ -85,6 +93,7 @@ GETTERS = {
     "connection": ["dt", "batchsz"],
     "reducer": ["dt", "duration", "inplace"],
     "record": ["dt", "duration", "inclusive"],
+    "layer": [],
 }
 
 
@@ -99,7 +108,7 @@ def _drive(kind, obj, cfg, xs, t):
     if kind == "neuron":
         kw = {"adapt": False} if cfg["neuron"]["cls"] in B.ADAPTIVE else {}
         o = obj(xs["cur"][t], **kw)
-        return {"out": o, "voltage": obj.voltage, "refrac": obj.refrac}
+        return {"out": o, "voltage": obj.voltage, "refrac": obj.refrac, "spike": obj.spike}
     if kind == "synapse":
         args = (xs["spk"][t],) if cfg["syn"]["cls"] != "DeltaPlusCurrent" else (xs["spk"][t].float(), xs["inj"][t])
         o = obj(*args)
@@ -119,6 +128,15 @@ def _drive(kind, obj, cfg, xs, t):
         args = (xs["spk"][t],) if type(syn).__name__ != "DeltaPlusCurrent" else (xs["spk"][t].float(), xs["inj"][t])
         o = obj(*args)
         return {"out": o, "current": obj.synapse.current, "syncurrent": obj.syncurrent}
+    if kind == "layer":
+        from . import c11 as C11
+
+        lc = obj._verif_case
+        outs, _ = C11._layer_step(lc, obj, {k: v[t] for k, v in xs.items()})
+        obs = {f"out:{k}": v for k, v in outs.items()}
+        for k, n in obj._verif_comps["neur"].items():
+            obs[f"voltage:{k}"] = n.voltage
+        return obs
     if kind == "record":
         rec = obj.rec
         rec.push(xs["obs"][t].float().reshape(-1)[: int(np.prod(cfg["shape"]) or 1)].reshape(tuple(cfg["shape"])))
@@ -128,8 +146,12 @@ def _drive(kind, obj, cfg, xs, t):
         return obs
     if kind == "reducer":
         x = xs["obs"][t]
+        before = None if obj.data_.ignored else obj.data_.value.data_ptr()
         obj(x if cfg["red"] in ("trace", "nearest") else x.float())
         obs = {"peek": obj.peek()}
+        if before is not None:
+            # observable meaning of `inplace`: the record's storage is reused by a fold
+            obs["storage_reused"] = torch.tensor(obj.data_.value.data_ptr() == before)
         d = obj.dump()
         if d is not None:
             obs["dump"] = d
@@ -149,6 +171,17 @@ def _inputs(kind, cfg, T, seed):
         inshape, _ = B.conn_shapes(cfg["conn"])
         return {"spk": torch.tensor(B.spikes_from(seed, T, (bsz,) + inshape, 0.5)),
                 "inj": torch.tensor(B.dyadic(seed + 1, (T, bsz) + inshape, -8, 8, 4), dtype=torch.float32)}
+    if kind == "layer":
+        from . import c17 as L
+
+        lc = cfg["layer"]
+        out = {}
+        for name, c in lc["conns"].items():
+            if lc["kind"] == "recurrent" and name != "ff":
+                continue
+            inshape, _ = B.conn_shapes(c)
+            out[name] = torch.tensor(B.spikes_from(seed + L.hash_name(name), T, (bsz,) + inshape, 0.6))
+        return out
     if kind == "record":
         return {"obs": torch.tensor(B.dyadic(seed, (T, 6), -8, 8, 4), dtype=torch.float32)}
     return {"obs": torch.tensor(B.spikes_from(seed, T, (2, 3), 0.5))}
@@ -156,6 +189,12 @@ def _inputs(kind, cfg, T, seed):
 
 def _apply(kind, obj, cfg, attr, val):
     """Assign one attribute on the instance and in the configuration dict."""
+    if kind == "layer":
+        # the layer has no setters of its own: the configuration is assigned on every component
+        for m in list(obj._verif_comps["conn"].values()) + list(obj._verif_comps["neur"].values()):
+            setattr(m, "batchsz" if attr == "batchsz" else attr, val)
+        cfg["batch" if attr == "batchsz" else attr] = val
+        return None
     if kind == "record":
         setattr(obj.rec, attr, val)
         cfg[attr] = val
@@ -187,6 +226,8 @@ def _apply(kind, obj, cfg, attr, val):
 
 def _expected_getters(kind, cfg):
     g = {"dt": cfg["dt"]}
+    if kind == "layer":
+        return {}
     if kind == "record":
         return {"dt": cfg["dt"], "duration": cfg["duration"], "inclusive": cfg["inclusive"]}
     if kind in ("neuron", "synapse", "connection"):
@@ -208,6 +249,11 @@ def run_path(case):
         S = _build(kind, cfg)
     changed_size = False
     rec0 = _records(S)
+    if case.get("presteps"):
+        pxs = _inputs(kind, cfg, case["presteps"], case["sseed"] + 31)
+        with impl("steps before the assignments"):
+            for t in range(case["presteps"]):
+                _drive(kind, S, cfg, pxs, t)
     for i, (attr, val) in enumerate(case["ops"]):
         before = _get(kind, S)
         what = f"op#{i} {attr} = {val!r}"
@@ -303,6 +349,12 @@ def run_dtype(case):
             a, b = o1[name], o2[name]
             if a is None or b is None:
                 continue
+            if name == "spike" and kind == "neuron":
+                # the spike attribute must equal the returned spikes in either precision (refractory period > 0 here)
+                check(torch.equal(a, o1["out"]), "dtype:spike-attr",
+                      lambda: f"step {t}: after .to(float64) neuron.spike differs from the spikes just returned")
+                check(torch.equal(b, o2["out"]), "dtype:spike-attr", lambda: f"step {t}: float32 neuron.spike differs from the returned spikes")
+                continue
             if b.dtype.is_floating_point:
                 check(a.dtype == torch.float64, "dtype:lost",
                       lambda: f"step {t}{' (after clear)' if cleared else ''}: '{name}' is {a.dtype} after .to(float64)")
@@ -327,7 +379,7 @@ def _cfg(draw, kind):
     cfg = {"dt": draw(st.sampled_from(_dts)), "batch": draw(st.integers(1, 3))}
     if kind == "neuron":
         cfg["neuron"] = {"cls": draw(st.sampled_from(B.NEURONS)), "shape": draw(st.sampled_from([[2], [2, 2]])),
-                         "refrac": draw(st.sampled_from([1, 2]))}
+                         "refrac": draw(st.sampled_from([1, 2, 2.3, 1.7]))}
     elif kind == "synapse":
         cfg["syn"] = {"cls": draw(st.sampled_from(B.SYNAPSES)), "q": 30.0, "tol": 1e-6, "interp": "previous"}
         cfg["shape"] = draw(st.sampled_from([[2], [2, 2]]))
@@ -340,6 +392,17 @@ def _cfg(draw, kind):
                        "syn": {"cls": syncls, "q": 30.0, "tol": 1e-6}, "bias": draw(st.booleans()),
                        "delay": draw(st.sampled_from([None, 2])), "wseed": draw(st.integers(0, 999)), "dseed": draw(st.integers(0, 999))}
         cfg["syncls"] = syncls
+    elif kind == "layer":
+        from . import c17 as L
+
+        lc = draw(L.layer_case("quick", False))
+        lc["train"] = False
+        lc["capture"] = False
+        for c in lc["conns"].values():
+            c["syn"]["q"] = 150.0
+        cfg["layer"] = lc
+        cfg["dt"] = lc["dt"]
+        cfg["batch"] = lc["batch"]
     elif kind == "record":
         cfg["duration"] = draw(st.sampled_from([0.0, 1.0, 2.0, 3.0, 1.5]))
         cfg["inclusive"] = draw(st.booleans())
@@ -353,8 +416,11 @@ def _cfg(draw, kind):
 
 @st.composite
 def path_case(draw, tier="quick"):
-    kind = draw(st.sampled_from(["neuron", "synapse", "synapse", "connection", "reducer", "reducer", "record", "record"]))
+    kind = draw(st.sampled_from(["neuron", "synapse", "synapse", "connection", "reducer", "reducer", "record", "record", "layer"]))
     cfg = draw(_cfg(kind))
+    if kind == "layer":
+        return {"kind": kind, "cfg": cfg, "ops": [["batchsz", draw(st.integers(1, 4))]], "steps": draw(st.integers(3, 6)),
+                "presteps": draw(st.integers(0, 3)), "sseed": draw(st.integers(0, 99999))}
     ops = []
     for _ in range(draw(st.integers(1, 6))):
         choices = ["dt", "batchsz"]
@@ -380,7 +446,8 @@ def path_case(draw, tier="quick"):
         else:
             v = draw(st.sampled_from(B.SYNAPSES))
         ops.append([a, v])
-    return {"kind": kind, "cfg": cfg, "ops": ops, "steps": draw(st.integers(3, 8)), "sseed": draw(st.integers(0, 99999))}
+    return {"kind": kind, "cfg": cfg, "ops": ops, "steps": draw(st.integers(3, 8)), "sseed": draw(st.integers(0, 99999)),
+            "presteps": draw(st.sampled_from([0, 0, 2]))}
 
 
 @st.composite
